@@ -351,6 +351,47 @@ func c06PairScenario() mc.Scenario {
 	}
 }
 
+// after a history: the call under test starts from whatever earlier calls left in the pools
+func c06HistoryScenario(maxLen int, first int) mc.Scenario {
+	zoo := c06Zoo()
+	targets := c06Targets()
+	events := c07Events()
+	benign := []int{}
+	for i, zi := range zoo {
+		switch zi.name {
+		case "untyped nil", "map[string]any{a,b}", "string", "int", "[]string", "struct exported":
+			benign = append(benign, i)
+		}
+	}
+	return func(x *mc.X) *mc.Outcome {
+		zh.Reset()
+		zh.Install(x, zh.PoolLIFO, zh.OrderSorted)
+		var hist []string
+		n := 1 + x.Choose(maxLen, "historyLength")
+		for i := 0; i < n; i++ {
+			e := first
+			if i > 0 {
+				e = x.Choose(len(events), "event")
+			}
+			c := x.Choose(3, "collect")
+			hist = append(hist, fmt.Sprintf("%s collect=%d", events[e].name, c))
+			func() {
+				defer func() { recover() }()
+				events[e].run(c)
+			}()
+		}
+		ti := x.Choose(len(targets), "target")
+		zi := benign[x.Choose(len(benign), "input")]
+		msg, where := c06Guard(func() { targets[ti].run(zoo[zi].v) })
+		zh.Reset()
+		out := c06Outcome(x, targets[ti].name, zoo[zi].name+" after history ["+strings.Join(hist, " ; ")+"]", msg, where)
+		for _, v := range out.Viol {
+			v.Key = strings.Replace(v.Key, "C06:panic:", "C06:panic-after-history:", 1)
+		}
+		return out
+	}
+}
+
 func c06JSONTexts() []string {
 	doc := `{"a":"x","b":1,"n":{"a":"y"},"l":[1,2],"p":{"a":"z","b":2},"q":3}`
 	texts := []string{`{}`, `[]`, `null`, `1`, `"s"`, `true`, ``, ` `, `{`, `}`, `{"a":}`, `{"a":"x","a":"y"}`, `{"a":null,"b":null}`,
@@ -488,7 +529,7 @@ func init() {
 			if tier == "thorough" {
 				return fmt.Sprintf("%d targets × %d zoo values at one position, + all pairs of zoo values at two positions of 4 targets, + every front end × raw text × 4 schemas", len(c06Targets()), len(c06Zoo()))
 			}
-			return fmt.Sprintf("%d targets × %d zoo values at one position, + every front end × raw text × 4 schemas", len(c06Targets()), len(c06Zoo()))
+			return fmt.Sprintf("%d targets × %d zoo values at one position, + every front end × raw text × 4 schemas; + every target after every history of 1 (thorough: 1–2) earlier calls (16 events × 3 collect modes, LIFO pools)", len(c06Targets()), len(c06Zoo()))
 		},
 		Assumptions: []string{
 			"every (schema, destination) pair in the catalogue is well-formed, so any panic is attributable to input data",
@@ -498,6 +539,13 @@ func init() {
 			items := []Item{
 				{Name: "zoo", MaxDevs: -1, Run: c06ZooScenario(false)},
 				{Name: "frontends", MaxDevs: -1, Run: c06FrontScenario()},
+			}
+			hl := 1
+			if tier == "thorough" {
+				hl = 2
+			}
+			for i, e := range c07Events() {
+				items = append(items, Item{Name: "after-history/" + e.name, MaxDevs: -1, Run: c06HistoryScenario(hl, i)})
 			}
 			if tier == "thorough" {
 				items = append(items, Item{Name: "zoo-pairs", MaxDevs: -1, Run: c06PairScenario()})
